@@ -3,6 +3,9 @@ package names
 // VP_INIT loads the lookup tables once per engine worker (their first-use initialisation is
 // the subject of VP_C18_names_locking, not of these harnesses).
 func VP_INIT() {
+	if vpParam("WARM", 1) == 0 {
+		return
+	}
 	glyph.lookup("glyphlist", "A")
 	glyph.lookup("zapfdingbats", "a1")
 	glyph.getEncode()
@@ -214,5 +217,33 @@ func VP_C16_entries() {
 	vpAssert("entry-maps-to-listed-text", vpSameRunes(got, want))
 	got2 := ToUnicode(name+".alt", dingbats)
 	vpAssert("suffix-ignored", vpSameRunes(got2, want))
+	vpCover("done")
+}
+
+// C18 K2: lock discipline of the lazily loaded name tables.  Everything reachable from the
+// package-level table holder that is written after package initialisation is written with the
+// mutex held and never read without it; once loaded, look-ups write nothing.  With Go's mutex
+// happens-before edges this is the sequential condition under which concurrent callers
+// (including first use racing with use) are free of data races.
+func VP_C18_names_locking() {
+	vpUnwind(400)
+	vpStepLimit(60000000)
+	order := vpChoose("order", 3)
+	calls := []func(){
+		func() { ToUnicode("A_B.alt", false) },
+		func() { FromUnicode('A') },
+		func() { ToUnicode("a1", true) },
+	}
+	for k := 0; k < 3; k++ {
+		calls[(k+order)%3]()
+	}
+	vpAssert("monitor:first-use-writes-happen-under-the-lock", vpUnlockedGlobalWrites() == 0)
+	g1 := vpGlobalWrites()
+	r := rune(vpInt32("r"))
+	vpAssume(r >= 0x131 && r <= 0x134) // a plain letter, two compatibility ligatures, an AGLFN entry
+	name := FromUnicode(r)
+	ToUnicode(name, vpChoose("dingbats", 2) == 1)
+	vpAssert("monitor:no-writes-once-loaded", vpGlobalWrites() == g1)
+	vpAssert("monitor:written-state-never-read-without-the-lock", vpLockViolations() == 0)
 	vpCover("done")
 }
